@@ -1537,7 +1537,9 @@ class BootstrapElectionModel(BaseElectionModel):
 
         # two party turnout
         # results weights is unexpected_units["results_dem"] + unexpected_units["results_gop"]
-        turnout_unexpected = (unexpected_units["results_weights"]).values.reshape(-1, 1)
+        # a unit that is passed through can have a missing count (ie. NaN): as in the sums of the other models it then
+        # adds nothing, instead of turning every aggregate of the run into NaN
+        turnout_unexpected = np.nan_to_num(unexpected_units["results_weights"].values.astype(float)).reshape(-1, 1)
 
         aggregate_indicator_train = aggregate_indicator_expected[:n_train]
         aggregate_indicator_test = aggregate_indicator_expected[n_train:]
@@ -1680,9 +1682,10 @@ class BootstrapElectionModel(BaseElectionModel):
         # first compute turnout and unnormalized margin for unexpected units.
         # this is a known quantity
         aggregate_indicator_unexpected = aggregate_indicator[(n_train + n_test) :]  # noqa: 1185
-        margin_unexpected = unexpected_units["results_margin"].values.reshape(-1, 1)
+        # a unit that is passed through can have a missing count (ie. NaN): it then adds nothing to its aggregates
+        margin_unexpected = np.nan_to_num(unexpected_units["results_margin"].values.astype(float)).reshape(-1, 1)
         # results weights is unexpected_units["results_dem"] + unexpected_units["results_gop"]
-        turnout_unexpected = (unexpected_units["results_weights"]).values.reshape(-1, 1)
+        turnout_unexpected = np.nan_to_num(unexpected_units["results_weights"].values.astype(float)).reshape(-1, 1)
         aggregate_z_unexpected = aggregate_indicator_unexpected.T @ turnout_unexpected
         aggregate_yz_unexpected = aggregate_indicator_unexpected.T @ margin_unexpected
 
